@@ -16,12 +16,16 @@ MANIFEST = dict(
          'line, is shown necessary: head_indent_needed); trailing blanks / comments change nothing (trailing_ws); a '
          'parenthesised group may be broken after any token that leaves a parenthesis open when every continuation line sits '
          'exactly one level above the current block level (paren_break); INDENT / DEDENT are balanced on every input '
-         '(dent_balanced*). (C, PROVED) A model of the stdin branch of stone.cli.main: cutting the concatenation of texts that '
-         'each start with `namespace` and contain that substring once gives the texts back (stdin_split*), and a legal text '
-         'containing the substring elsewhere is cut in the wrong place (stdin_split_witness, defect D14). Both models are tied '
+         '(dent_balanced*). (C, PROVED) A model of the stdin branch of stone.cli.main (a new spec starts at every line that begins '
+         'with `namespace` and a word boundary): cutting the concatenation of texts that each begin with such a line, have '
+         'no other such line and end with a newline gives the texts back, a preamble stays with the first spec '
+         '(stdin_split*); the witness of defect D14 (the substring inside an identifier or a doc) is kept in one piece by the '
+         'repaired code (stdin_split_regression); a doc-string line beginning with the word still cuts a text '
+         '(stdin_split_witness). Both models are tied '
          'to the code by a translator (indent unit, continuation rule, lexer states and rules, the grammar`s NEWLINE '
-         'productions, the split literal: pinned by `decide`) and by differential runs of the REAL lexer against the compiled '
-         'model (suite fe.lex: generated specs under reference and noisy layouts, damaged indentation, line soup). '
+         'productions, the split pattern: pinned by `decide`) and by differential runs of the REAL lexer and of the REAL stdin '
+         'branch of cli.main against the compiled models (suites fe.lex: generated specs under reference and noisy layouts, '
+         'damaged indentation, line soup; fe.stdin: keyword-heavy line soup and generated specs). '
          '(B, TESTED, not proved) File order, definition order, splitting a namespace over files, comment / blank-line / '
          'trailing-whitespace insertion at every line boundary, continuation-line variants and stdin delivery are exercised on '
          'the real compiler: the canonical signature of the Api (harness/apisig.py) and the bytes every built-in backend '
@@ -75,8 +79,9 @@ def run(ck):
     _timed(ck, 'fe.lex.layout', fe_lex.suite_lex_layout, ck)
     # part B: the layout / order oracle on the real compiler and backends (testing)
     _timed(ck, 'layout.seeds', layout.suite_seeds, ck)
-    _timed(ck, 'layout', layout.suite_layout, ck, n_models=ck.scale(20, 300), n_layouts=ck.scale(12, 40), backends=None)
+    _timed(ck, 'layout', layout.suite_layout, ck, n_models=ck.scale(20, 150), n_layouts=ck.scale(12, 40), backends=None)
     # part C: stdin delivery on the real CLI
+    _timed(ck, 'fe.stdin', layout.suite_stdin_split, ck)
     _timed(ck, 'layout.stdin', layout.suite_stdin, ck, n_models=ck.scale(10, 120))
     ck.assumptions.extend([
         'the tokens of a line are opaque to the lexer model except `(` and `)`; a string literal is one token',
